@@ -801,6 +801,10 @@ func evalActionSet(node *ActionExpression, env *Environment) Object {
 		return val
 	}
 
+	// the assigned value must not share state with the attribute or the
+	// expression attribute value it was read from
+	val = copyObject(val)
+
 	id, ok := node.Left.(*Identifier)
 	if ok {
 		// We need to validate left hand side is not a keyword
